@@ -152,9 +152,9 @@ Definition tlBound (P HI : Z) (a : asIn) : Prop :=
   forall ss f l, a_tl a = Some ss -> firstLast ss = Some (f, l) ->
     0 < tsOf a < two32 /\ 0 <= f < two63 /\ 0 <= l < two63 /\ (l / (P * tsOf a) + 1) * P <= HI.
 
-Theorem splitPeriod_partition_full atoMS pph seg mode cont ast snr st now ases ps j a s0 rest t0 HI :
+Theorem splitPeriod_partition_full atoMS loopMS pph seg mode cont ast snr st now ases ps j a s0 rest t0 HI :
   1 <= pph <= 3600 -> 0 < seg -> ast <= st <= now -> mode <> MNumber ->
-  splitPeriod false (Some atoMS) pph seg mode cont ast snr st now ases = Ok ps ->
+  splitPeriod false (Some (atoMS, loopMS)) pph seg mode cont ast snr st now ases = Ok ps ->
   nth_error ases j = Some a -> a_image a = false -> a_tl a = Some (s0 :: rest) -> p_t s0 = Some t0 ->
   Forall (fun s => 0 <= p_r s < two32) (s0 :: rest) ->
   let es := s0 :: rest in
@@ -163,11 +163,11 @@ Theorem splitPeriod_partition_full atoMS pph seg mode cont ast snr st now ases p
   let ts := tsOf a in
   goodTL es (snrFor mode a) ts HI -> (k1 + 1) * P <= HI ->
   Forall (tlBound P HI) ases ->
-  (* the listed segments lie within the bounds of the widening: the first one begins less than one
-     period before the period of the window start, the last one not after the period of now + ato *)
+  (* the listed segments lie within the bounds of the widening: the first one begins no earlier than
+     the period one loop before the window start, the last one not after the period of now + ato *)
   (forall f l, firstLast es = Some (f, l) ->
-     (st - ast) / (P * 1000) - 1 <= f / (P * ts) /\
-     l / (P * ts) <= kmaxOf (Some atoMS) P ast now k1) ->
+     kminOf (Some (atoMS, loopMS)) P ast st ((st - ast) / (P * 1000)) <= f / (P * ts) /\
+     l / (P * ts) <= kmaxOf (Some (atoMS, loopMS)) P ast now k1) ->
   flat_map (periodTimeline j) ps = expandP es /\
   Forall (fun p => periodTimeline j p = filter (inWin (pd_nr p * P * ts) ((pd_nr p + 1) * P * ts)) (expandP es) /\
                    periodPTO j p = Some (pd_start p * ts) /\
@@ -179,14 +179,15 @@ Theorem splitPeriod_partition_full atoMS pph seg mode cont ast snr st now ases p
 Proof.
   intros Hpph Hseg Hst Hmode H Hj Himg Htl Ht0 HR es P k1 ts G Hhi HB Hbnd.
   pose proof (periodDur_pos pph Hpph) as HP. fold P in HP.
-  destruct (splitPeriod_structure_gen (Some atoMS) pph seg mode cont ast snr st now ases ps Hpph Hseg ltac:(lia) ltac:(lia) H)
+  destruct (splitPeriod_structure_gen (Some (atoMS, loopMS)) pph seg mode cont ast snr st now ases ps Hpph Hseg ltac:(lia) ltac:(lia) H)
     as (_ & ka & kb & ER & F).
   fold P k1 in ER, F.
   set (k0 := (st - ast) / (P * 1000)) in *.
   assert (Hk0 : 0 <= k0) by (unfold k0; apply Z.div_pos; lia).
   assert (Hk01 : k0 <= k1) by (unfold k0, k1; apply Z.div_le_mono; lia).
-  set (kmax := kmaxOf (Some atoMS) P ast now k1) in *.
-  assert (EW : widenRange P ases (k0 - 1) kmax k0 k1 = Ok (ka, kb)).
+  set (kmax := kmaxOf (Some (atoMS, loopMS)) P ast now k1) in *.
+  set (kmin := kminOf (Some (atoMS, loopMS)) P ast st k0) in *.
+  assert (EW : widenRange P ases kmin kmax k0 k1 = Ok (ka, kb)).
   { unfold rangeOf in ER. destruct mode; [congruence|exact ER|exact ER]. }
   assert (Hm : templateType mode a <> MNumber) by (unfold templateType; rewrite Himg; exact Hmode).
   assert (Hin : In a ases) by (eapply nth_error_In; eauto).
@@ -206,8 +207,8 @@ Proof.
     unfold i64. unfold two63, two64 in *.
     repeat split; lia. }
   (* bounds on the widened range *)
-  destruct (widenRange_covers P (k0 - 1) kmax ases k0 k1 ka kb EW) as (Hka & Hkb & _ & _ & Hcov).
-  destruct (widenRange_inv (fun k => 0 <= k) (fun k => (k + 1) * P <= HI) P (k0 - 1) kmax ases k0 k1 ka kb EW Hk0 Hhi) as [Hka0 HkbHI].
+  destruct (widenRange_covers P kmin kmax ases k0 k1 ka kb EW) as (Hka & Hkb & _ & _ & Hcov).
+  destruct (widenRange_inv (fun k => 0 <= k) (fun k => (k + 1) * P <= HI) P kmin kmax ases k0 k1 ka kb EW Hk0 Hhi) as [Hka0 HkbHI].
   { intros a' ss f l Ha' E1 E2. destruct (Hpt a' ss f l Ha' E1 E2) as (_ & _ & -> & -> & ? & ?). split; assumption. }
   assert (G' : goodTL es (snrFor mode a) ts ((kb + 1) * P)).
   { destruct G. constructor; try assumption. nia. }
@@ -222,7 +223,7 @@ Proof.
   destruct (Hcov a es _ _ Hin Htl Efl) as [Ca Cb].
   destruct (Hpt a es _ _ Hin Htl Efl) as (_ & Hpos & E1 & E2 & _ & _).
   rewrite E1 in Ca. rewrite E2 in Cb. fold ts in Ca, Cb, Hpos.
-  destruct (Hbnd _ _ Efl) as [B1 B2]. fold k0 in B1. specialize (Ca B1). specialize (Cb B2).
+  destruct (Hbnd _ _ Efl) as [B1 B2]. fold k0 in B1. fold kmin in B1. specialize (Ca B1). specialize (Cb B2).
   fold es in Exs. rewrite Exs in Hx, Hs.
   assert (Hlo : fst x0 <= fst x) by (destruct Hx as [<-|Hx]; [lia|]; destruct x0; apply (sortedT_ge _ _ _ Hs x Hx)).
   assert (Hup : fst x <= fst (last (x0 :: xs) (0, 0))) by (apply sortedT_le_last; assumption).
@@ -246,7 +247,7 @@ Qed.
 (** ato_3, 2 s segments, periods_60, now = 59 s: with the repair period 1 exists and holds the
     segment that starts at 60 s. *)
 Lemma late_segment_after_fix :
-  splitPeriod false (Some 3000) 60 2000 MTimelineTime false 0 0 0 59000
+  splitPeriod false (Some (3000, 8000)) 60 2000 MTimelineTime false 0 0 0 59000
     [ {| a_image := false; a_ts := Some 90000; a_dur := None; a_startNr := None; a_tl := Some atoTL |} ] =
   Ok [ {| pd_nr := 0; pd_start := 0;
           pd_as := [ {| o_pto := 0; o_startNr := None; o_tl := Some [ {| p_t := Some 0; p_d := 180000; p_r := 29 |} ]; o_cont := false |} ] |};
@@ -264,7 +265,7 @@ Lemma early_segment_before_fix :
   Ok [ {| pd_nr := 1; pd_start := 120; pd_as := [ {| o_pto := 10800000; o_startNr := None; o_tl := Some []; o_cont := false |} ] |} ].
 Proof. vm_compute. reflexivity. Qed.
 Lemma early_segment_after_fix :
-  splitPeriod false (Some 0) 30 6000 MTimelineTime false 0 0 120000 121000 [earlyAS] =
+  splitPeriod false (Some (0, 24000)) 30 6000 MTimelineTime false 0 0 120000 121000 [earlyAS] =
   Ok [ {| pd_nr := 0; pd_start := 0;
           pd_as := [ {| o_pto := 0; o_startNr := None; o_tl := Some [ {| p_t := Some 10260000; p_d := 540000; p_r := 0 |} ]; o_cont := false |} ] |};
        {| pd_nr := 1; pd_start := 120; pd_as := [ {| o_pto := 10800000; o_startNr := None; o_tl := Some []; o_cont := false |} ] |} ].
